@@ -247,7 +247,7 @@ class Gen:
         r = self.rng
         n = len(inner_bytes)
         bounds = [i for i in range(n + 1) if i == n or (inner_bytes[i] & 0xC0) != 0x80]
-        beyond = [n + 1, n + 3]
+        beyond = [n + 1, n + 3, 4294967295 if r.random() < 0.5 else n + 2]
         k = weighted(r, [(0, 1), (1, 4), (2, 4), (3, 2), (4, 1)])
         out = []
         for _ in range(k):
